@@ -17,7 +17,7 @@ except Exception:  # pragma: no cover
 
 META = {
     "technique": "Lean 4 state-machine invariant for the SCF convergence bookkeeping with arbitrary kernels (truthful sticky flag, bounded loop), spectral model of SP2 (range/monotonicity/aufbau, non-termination witness), matrix algebra for the aufbau density + recorded-trace correspondence of get_error / SP2 + residual probes on returned densities with a wall-clock bound",
-    "level_text": "Theorems: for ANY numeric kernels, a molecule returned as converged passed |dE|<=eps, dm_err<=2eps, dm_elem<=15eps (diis<=50eps) at its last active iteration and is untouched afterwards; unconverged molecules are reported; the loop runs at most MAX_ITER iterations (constants regenerated from the code); the aufbau density of an orthonormal eigenbasis is symmetric, has trace 2 n_occ, is idempotent and commutes with F; SP2's polynomials preserve [0,1] and the order of occupations (so a stopped SP2 is the aufbau projector) and never stop when equal occupations straddle the Fermi level. Tied to the code by replaying recorded real get_error calls and SP2 spectra through the compiled model, and by checking every clause numerically on the densities returned by real calculations (solver x SP2 x eps x initial density x charge x padding lattice) inside a child process with a time bound.",
+    "level_text": "Theorems: for ANY numeric kernels, a molecule returned as converged passed |dE|<=eps, dm_err<=2eps, dm_elem<=15eps (diis<=50eps) at its last active iteration and is untouched afterwards; unconverged molecules are reported; the loop runs at most MAX_ITER iterations (constants regenerated from the code); the aufbau density of an orthonormal eigenbasis is symmetric, has trace 2 n_occ, is idempotent and commutes with F; SP2's polynomials preserve [0,1] and the order of occupations (so a stopped SP2 is the aufbau projector) and never stop when equal occupations straddle the Fermi level. Tied to the code by replaying recorded real get_error calls and SP2 spectra through the compiled model, and by checking every clause numerically on the densities returned by real calculations (solver x SP2 x eps x initial density x charge x padding lattice) inside a child process with a time bound. Translator tie: all 21 expressions in 7 files that bound the real orbitals of a padded matrix count 9 nsh + 4 nh + nhy (or 4 nh + nhy), and the element-class masks partition the supported elements (BasisTie); the s,p,d basis (PM6) is in the probe lattice.",
     "level_note": "Trusted: Lean kernel; harness; LAPACK eigh contract as theorem hypothesis; float residual sizes are observed, bounds are K*eps with K stated in the probe. KSA (scf_forward3) and Fermi_Q kernels are control-flow modelled only.",
     "design_ref": "DESIGN.md section 5 C03",
 }
